@@ -11,7 +11,7 @@ ALLOWED_SINKS = {
     ('rename_file', 1), ('rename_file', 'new_filename'),
     ('is_special_file', 0), ('isinstance', 0), ('is_compatible', 0),
     ('_do_file_rename', 2), ('_finalize_download', 2),
-    ('_submit_get_object_job', 'filename'),
+    ('_submit_get_object_job', 'filename'), ('GetObjectJob', 'filename'),  # the job record carries it to the worker (job.filename is a source there)
     ('RenameTempFileHandler', 1), ('RenameTempFileHandler', 'final_filename'),
     ('debug', None), ('format', None), ('join', None),
     ('ProgressCallbackInvoker', None),
